@@ -24,7 +24,7 @@ RULE = ("for each text format {json, json5, yaml, xml, html, plist} and each sam
 ASSUMPTIONS = ["CSV (its reader accepts every byte string) and pickle (no independent notion of validity) are excluded by the property",
                "independent recognisers: hand-written strict JSON / lenient JSON5 / XML well-formedness scanners in this file, the "
                "pure-Python yaml.Loader (graphtage uses the C loader); reference libraries: json, json5, PyYAML, ElementTree, plistlib"]
-MINIMUMS = {"quick": {"cli_on_a_terminal": 1500, "faults_judged": 6000, "faults_judged:json": 500, "faults_judged:json5": 300, "faults_judged:yaml": 150,
+MINIMUMS = {"quick": {"same_malformed_bytes_as_both_files": 800, "fault_with_options:-e": 400, "fault_with_options:-d": 400, "cli_on_a_terminal": 1500, "faults_judged": 6000, "faults_judged:json": 500, "faults_judged:json5": 300, "faults_judged:yaml": 150,
                       "faults_judged:xml": 500, "faults_judged:html": 500, "faults_judged:plist": 500, "subprocess_runs": 12},
             "thorough": {"cli_on_a_terminal": 20000, "faults_judged": 200000, "faults_judged:json": 20000, "faults_judged:json5": 5000, "faults_judged:yaml": 10000,
                          "faults_judged:xml": 20000, "faults_judged:html": 20000, "faults_judged:plist": 20000,
@@ -466,7 +466,19 @@ def check(case, ctx):
     ext = formats.EXT[f]
     pbad = families.tmpfile(bad, "-broken" + ext)
     pgood = families.tmpfile(valid, "-good" + ext)
-    argv = ["--no-status"] + ([pbad, pgood] if case["position"] == 0 else [pgood, pbad])
+    # the other options of the invocation and the other file vary with the fault: output modes and formats that take other paths
+    # through main(), and -- one time in six -- the same malformed bytes as *both* files (a copy, or the same path twice)
+    h = len(bad) * 7 + case["position"] * 3 + sum(bad[:8])
+    extra = [[], [], ["-e"], ["-d"], ["-j"], ["--format", "json"], ["-k"], ["--color"], ["-jl"], ["-e", "-k"], ["-d", "-l"]][h % 11]
+    # (--html is left out: the HTML printer writes its page header before the files are read, which is not a diff)
+    other = pgood
+    if (h // 11) % 6 == 0:
+        other = pbad if (h // 66) % 2 == 0 else families.tmpfile(bad, "-broken-copy" + ext)
+        if ctx is not None:
+            ctx.count("same_malformed_bytes_as_both_files")
+    if ctx is not None and extra:
+        ctx.count("fault_with_options:" + " ".join(extra))
+    argv = ["--no-status"] + extra + ([pbad, other] if case["position"] == 0 else [other, pbad])
     base = os.path.basename(pbad)
     if case.get("subprocess"):
         env = dict(os.environ)
@@ -494,7 +506,7 @@ def check(case, ctx):
             diags.append({"kind": "exit-status-zero-on-malformed-input", "rc": rc, "fault": case["fault"], "position": where})
         if out.strip():
             diags.append({"kind": "diff-printed-for-malformed-input", "stdout": out[:200], "fault": case["fault"], "position": where})
-        if base not in err:
+        if base not in err and not (other != pgood and os.path.basename(other) in err):     # (either malformed file may be named)
             diags.append({"kind": "error-message-does-not-name-the-file", "stderr": err[:200], "fault": case["fault"], "position": where})
     if ctx is not None:
         ctx.count("faults_judged")
